@@ -69,7 +69,26 @@ pub fn run(ctx: &mut Ctx) {
     let cfg = GenCfg::standard();
     let n = ctx.n(700, 50_000);
     let cases = matcher_cases(prop, ctx, &cfg, n);
-    ctx.ev.rule = "corpus + fixtures + generated ledgers (fees on every trade, partial lots, same-day/30-day/pool mixes, splits, cost events while shares are held). Oracle on the real matcher's full-precision output: per security Σ legs' allowable cost + closing cost − Σ (q·p + fees) = Σ signed cost events that took effect (events dated when the position was positive; with splits present: some subset of the events). Correspondence: costs of legs (per rule and acquisition date) and closing cost vs the Lean model. Non-trivial = accepted ledger with ≥ 2 rules in use and a fee > 0, or an effective cost event; distinct by ledger text.".into();
+    ctx.ev.rule = "corpus + fixtures + generated ledgers (fees on every trade, partial lots, same-day/30-day/pool mixes, splits, cost events while shares are held). Oracle on the real matcher's full-precision output: per security Σ legs' allowable cost + closing cost − Σ (q·p + fees) = Σ signed cost events that took effect (events dated when the position was positive; with splits present: some subset of the events). Correspondence: costs of legs (per rule and acquisition date) and closing cost vs the Lean model. Known-finding class zeroQuantityBuyWithCost (D14) is probed with two fixed ledgers. Non-trivial = accepted ledger with ≥ 2 rules in use and a fee > 0, or an effective cost event; distinct by ledger text.".into();
+    // known finding D14 (class zeroQuantityBuyWithCost): the ledgers below are not validator-clean, so the
+    // theorems (which assume WellFormed) and the main loop skip them; `report` accepts them all the same
+    {
+        use rust_decimal::Decimal;
+        const D14: &str = "D14: a BUY of zero shares with a price or fees is accepted by calculate()/`report` (only the standalone validator objects) and its cost appears neither in a leg nor in the closing holding";
+        for fee in [Decimal::from(10), Decimal::new(1, 2)] {
+            let l: Ledger = vec![
+                GTx::new(ledger::d(2024, 1, 2), "AAA", Kind::Buy, Decimal::ZERO, Decimal::from(5), fee),
+                GTx::new(ledger::d(2024, 1, 3), "AAA", Kind::Buy, Decimal::from(10), Decimal::from(5), Decimal::ZERO),
+                GTx::new(ledger::d(2024, 2, 3), "AAA", Kind::Sell, Decimal::from(4), Decimal::from(6), Decimal::ZERO),
+            ];
+            ctx.ev.evaluations += 1;
+            match run_impl::impl_match(&l) {
+                Ok(out) => if oracle(&l, &out).is_some() { ctx.ev.known("zeroQuantityBuyWithCost", D14); } else { ctx.ev.count("zero-quantity-buy:cost-kept") },
+                Err(e) if e.kind == "panic" => ctx.ev.violation("crash", e.detail.clone(), replay_text(prop, "crash", &e.detail, &l, &[])),
+                Err(_) => ctx.ev.count("zero-quantity-buy:refused"),
+            }
+        }
+    }
     for (name, l) in cases {
         if !well_formed(&l) { continue; }
         ctx.ev.evaluations += 1;
